@@ -132,6 +132,15 @@ def final_checks(w):
         grid = [np.sort(rng.uniform(0, 1, 3 + rng.randint(3))) for _ in range(dim)]
         if rng.randint(2):
             grid[0] = np.concatenate(([0.0], grid[0], [1.0]))
+        for d in range(dim):
+            # points exactly ON mesh lines of some level (where the level-wise contributions change and
+            # derivatives of low-degree splines jump; evaluation is right-continuous on every level)
+            if rng.randint(2):
+                lvk = rng.randint(L)
+                msh = m.mesh(lvk, d)
+                pts = msh[rng.randint(len(msh), size=1 + rng.randint(3))]
+                grid[d] = np.unique(np.concatenate((grid[d], pts)))
+                ctx.count('eval.grid.on-meshlines')
         for nm in ('grid_eval', 'grid_jacobian', 'grid_hessian'):
             if nm == 'grid_hessian' and min(cfg['degs']) < 1:
                 continue
